@@ -281,7 +281,7 @@ func c02LBValid(c c02LBCase) bool {
 		switch s.K {
 		case "H", "P":
 		case "S":
-			if s.N < 200 || s.N > 599 {
+			if (s.N < 200 || s.N > 599) && !c02BadStatus(s.N) {
 				return false
 			}
 		case "W":
@@ -339,6 +339,9 @@ func c02LBRun(c c02LBCase) (v kit.Verdict) {
 		if p.panics {
 			cls["panic"] = true
 			v.NonTrivial = true
+		}
+		if p.badStatus {
+			cls["panic-inside-WriteHeader(invalid status)"] = true
 		}
 		if cf.T > 0 && r.took >= time.Duration(cf.T)*time.Millisecond/2 {
 			// the machine stalled for half the route timeout: "returns at once" no longer describes this run
@@ -481,7 +484,10 @@ func c02LBGen(rt *rapid.T) c02LBCase {
 			case "H":
 				p = append(p, c02Step{K: "H"})
 			case "S":
-				p = append(p, c02Step{K: "S", N: rapid.SampledFrom([]int{200, 201, 302, 400, 404, 413, 499, 500, 503, 599}).Draw(rt, "code")})
+				p = append(p, c02Step{K: "S", N: rapid.SampledFrom([]int{200, 201, 302, 400, 404, 413, 499, 500, 503, 599, 200, 404, 0, 99, 1000, -1}).Draw(rt, "code")})
+				if c02BadStatus(p[len(p)-1].N) {
+					return p // WriteHeader panics here
+				}
 				wrote = true
 			case "W":
 				p = append(p, c02Step{K: "W", N: rapid.IntRange(1, 3).Draw(rt, "n")})
@@ -492,6 +498,9 @@ func c02LBGen(rt *rapid.T) c02LBCase {
 	}
 	c.P = steps(rapid.IntRange(0, 4).Draw(rt, "pre"), false)
 	if c.K == "block" {
+		if n := len(c.P); n > 0 && c.P[n-1].K == "S" && c02BadStatus(c.P[n-1].N) {
+			c.P = c.P[:n-1] // a block handler must reach its wait
+		}
 		c.P = append(c.P, c02Step{K: "C"})
 		for _, s := range steps(rapid.IntRange(0, 2).Draw(rt, "post"), false) {
 			if s.K != "H" {
